@@ -54,6 +54,14 @@ def check_window(case):
         win = build_window(dict(case, order=ra["order"], peak=ra["peak"]))
         call("get_impulse_response (before order / peak are assigned)", win.get_impulse_response, max(2, width))
         win.order, win.peak = case["order"], case["peak"]
+    elif case.get("alias_pick") is not None and alias != "gamma":
+        # the window by one of the documented aliases of its class instead of the class itself (configuration files name
+        # windows this way): whatever the alias resolves to must be this window
+        from pydrobert.speech.filters import WindowFunction
+
+        names = sorted(type(build_window(case)).aliases)
+        name = names[case["alias_pick"] % len(names)]
+        win = call("WindowFunction.from_alias(%r)" % name, WindowFunction.from_alias, name)
     else:
         win = build_window(case)
     if case.get("prior") is not None:
@@ -132,7 +140,7 @@ def window_cases():
 
     def build(alias, width, order, peak, prior, reassign):
         if alias != "gamma":
-            return {"alias": alias, "width": width, "prior": prior}
+            return {"alias": alias, "width": width, "prior": prior, "alias_pick": None if prior is None else (prior + width) % 5}
         return {"alias": "gamma", "width": width, "order": order, "peak": peak, "prior": prior, "reassign": reassign}
 
     return st.builds(build, st.sampled_from(WINDOWS + ["gamma", "gamma", "gamma"]), _widths(), orders, peaks,
